@@ -551,7 +551,15 @@ pub fn run(opts: &Opts) -> i32 {
         |w| Sandbox::new(&format!("c14w{w}")).expect("sandbox"),
         |sb, i| check_case(sb, opts.seed, i, &all[i], nsched, None),
     );
-    harness::print_run_digest(&results.iter().map(|r| format!("{}{}", r.digest, r.violations.len())).collect::<Vec<_>>());
+    // stores written by the earlier release of the compiler (c14fix.rs)
+    let (fx, nfix) = crate::props::c14fix::phase(opts, harness::VERIF_DIR);
+    harness::print_run_digest(
+        &results
+            .iter()
+            .map(|r| format!("{}{}", r.digest, r.violations.len()))
+            .chain(fx.iter().map(|r| format!("fx{}{}", r.digest, r.violations.len())))
+            .collect::<Vec<_>>(),
+    );
     let mut violations: Vec<Violation> = Vec::new();
     let mut multi = 0u64;
     let mut fixture_sampled = false;
@@ -569,8 +577,6 @@ pub fn run(opts: &Opts) -> i32 {
         }
         violations.extend(r.violations);
     }
-    // stores written by the earlier release of the compiler (c14fix.rs)
-    let (fx, nfix) = crate::props::c14fix::phase(opts, harness::VERIF_DIR);
     let mut fixture_procs = 0u64;
     for r in fx {
         ev.evaluations += r.procs;
